@@ -572,6 +572,17 @@ impl Gen<'_> {
                     });
                     return bin(op, a, b);
                 }
+                // a sibling that is the same one-variable sub-formula (or the bare variable) over ANOTHER variable in scope:
+                // equal up to renaming, different in meaning
+                if fv.len() == 1 && scope.len() >= 2 && self.opts.dup_pct > 0 && self.rng.chance(1, 6) {
+                    let from = fv[0].clone();
+                    let others: Vec<String> = scope.iter().filter(|v| **v != from).cloned().collect();
+                    if !others.is_empty() && !bound_names(&a).iter().any(|b| others.contains(b)) {
+                        let to = self.rng.pick(&others).clone();
+                        let b = a.rename_vars(&|v| if v == from { to.clone() } else { v.to_string() });
+                        return bin(op, a, b);
+                    }
+                }
                 let b = self.go(size - 1 - left, scope);
                 bin(op, a, b)
             }
